@@ -4,6 +4,7 @@ import random
 import core
 from runner import Case
 from props import _store_util as U
+from props import _bridge_util as B
 
 THEOREMS = [
     "C01.wf_init", "C01.wf_step", "C01.wf_run", "C01.reject_loops",
@@ -39,7 +40,7 @@ ASSUMPTIONS = ["hooks of user subclasses raise or return; they do not touch pare
 
 
 def mk_case(d, tags=()):
-    return Case(U.mk_line(d), d, tags)
+    return Case(B.mk_line(d), d, tags)   # rb=1: the driver also prints the read-back forest
 
 
 def corpus():
@@ -99,8 +100,7 @@ def rehydrate(case):
 
 
 def impl(case):
-    _nodes, tr = U.run_trace(case.data)
-    return U.show_trace(tr)
+    return B.impl_line(case.data, B.wants_readback(case.line))
 
 
 def oracle(case):
@@ -129,7 +129,7 @@ def nontrivial(case):
 
 def shrink(case):
     for d in U.shrink_history(case.data):
-        yield Case(U.mk_line(d), d, case.tags)
+        yield Case(B.mk_line(d), d, case.tags)
 
 
 NOT_READY = False
